@@ -46,12 +46,17 @@ def post(prop, tier, seed, res):
         # line-by-line against the default build (observational equivalence of the builds)
         tagged = o.splitlines()
         def textual(case):
+            if case.startswith("mk "):
+                # a masked tensor: the in-place build transposes masks of matrices only
+                sh = case.split(" ")[3].split(":")[2]
+                return "mask-rank%d" % (0 if sh == "_" else len(sh.split(",")))
             if "new:cm" in case:
                 return "col-major"
             if "slice:" in case:
                 return "view-source"
             ops = case.split(" ")[-1].split(";")
-            if sum(1 for o in ops if o.split(":")[0] in ("T", "safeT", "apitranspose", "transpose", "rollaxis")) >= 2:
+            # two or more LAZY transpositions (a physical Transpose after one lazy T is the normal case)
+            if sum(1 for o in ops if o.split(":")[0] in ("T", "safeT", "apitranspose", "rollaxis")) >= 2:
                 return "composed-transposes"
             return "in-domain"
         dcls = [(l.rstrip("\n").split("\t") + ["", "", ""])[2] for l in open(cases + ".model")]
